@@ -6,6 +6,11 @@ from harness.timebase import TB, REGIMES
 from harness.tlutil import mk_sup, enc_sup
 
 PROP = "C14"
+# the binary64 theorems (Properties/C14.v, module Binary64) use the standard library's real numbers
+AXIOM_WHITELIST = ["sig_not_dec", "sig_forall_dec", "functional_extensionality_dep", "classic"]
+TRUSTED = ["C14 module Binary64: Coq standard-library axioms of the real numbers (ClassicalDedekindReals.sig_not_dec, sig_forall_dec), "
+           "FunctionalExtensionality.functional_extensionality_dep, Classical_Prop.classic, through Reals and Flocq 4; "
+           "IEEE-754 binary64 arithmetic modelled by Flocq's round on the reals"]
 CHECK_MODULE = "Check.C14"
 COQ_IMPORTS = "Model.Window"
 SHARD = 150
